@@ -215,8 +215,50 @@ func checkC18(c *Ctx) {
 			return
 		}
 		fns := withAnon(conv)
-		// R4: stores into RespValue fields / elements inside Convert and its closures
+		// R4: stores into RespValue fields / elements inside Convert and its closures - and anywhere else on the SCAN
+		// path (the constructor, the handler): MATCH and COUNT are passed through as they are
 		nst := 0
+		var others []*ssa.Function
+		for _, f2 := range p.FuncsIn(redisPkg) {
+			if p.isTestFn(f2) {
+				continue
+			}
+			inFns := false
+			for _, f3 := range fns {
+				if f3 == f2 {
+					inFns = true
+				}
+			}
+			if inFns {
+				continue
+			}
+			isScan := f2.Signature.Recv() != nil && modType(f2.Signature.Recv().Type(), redisPkg, "scanRequest")
+			if res := f2.Signature.Results(); res.Len() > 0 {
+				if pt, ok := res.At(0).Type().(*types.Pointer); ok && modType(pt.Elem(), redisPkg, "scanRequest") {
+					isScan = true
+				}
+			}
+			if topFn(f2).Name() == "handleScan" {
+				isScan = true
+			}
+			if isScan {
+				others = append(others, f2)
+			}
+		}
+		for _, fn := range others {
+			eachInstr(fn, func(_ *ssa.BasicBlock, _ int, in ssa.Instruction) {
+				st, ok := in.(*ssa.Store)
+				if !ok {
+					return
+				}
+				f, base := fieldAddr(st.Addr)
+				if f == nil || !modType(base.Type(), redisPkg, "RespValue") || isFreshAlloc(base) {
+					return
+				}
+				nst++
+				c.Fail("R4", fmt.Sprintf("%s store#%d to RespValue.%s", fnKey(fn), nst, f.Name()), st.Pos(), "the SCAN path rewrites an argument of the client's request outside the cursor conversion: MATCH/COUNT (or a pattern that merely looks like an option name) no longer reach the node as the client sent them")
+			})
+		}
 		for _, fn := range fns {
 			bc := newBoundsCtx(p, fn)
 			eachInstr(fn, func(b *ssa.BasicBlock, i int, in ssa.Instruction) {
